@@ -18,6 +18,20 @@ func (f *Frame) call(ins ssa.Instruction, c *ssa.CallCommon, st *State) (Value, 
 	for _, a := range c.Args {
 		args = append(args, f.val(a))
 	}
+	// may-panic call sites named by the contract under verification: fork before the call
+	// (the callee panics before it has any effect visible here)
+	if f.mayPanicSite(ins) && !f.inDeferred {
+		pk := f.u.sc.fresh("panics", SBool)
+		pst := st.clone()
+		pst.reach = f.u.freshDef("reach", mkAnd(st.reach, pk))
+		extra := map[string]Value{}
+		for i, a := range args {
+			a.Ty = c.Args[i].Type()
+			extra[fmt.Sprintf("arg%d", i)] = a
+		}
+		f.panicFork(ins, pst, extra)
+		st.reach = f.u.freshDef("reach", mkAnd(st.reach, mkNot(pk)))
+	}
 	resT := c.Signature().Results()
 	if c.IsInvoke() {
 		return f.invoke(ins, c, args, st), true
@@ -139,7 +153,7 @@ func (f *Frame) inline(ins ssa.Instruction, callee *ssa.Function, binds []Value,
 	if ins != nil {
 		k = f.ords[ins]
 	}
-	sub := &Frame{u: u, fn: callee, top: false, depth: f.depth + 1, parent: f,
+	sub := &Frame{u: u, fn: callee, top: false, depth: f.depth + 1, parent: f, deferredCall: f.inDeferred,
 		prefix:  fmt.Sprintf("%s/inl.%s#%d", f.prefix, calleeShort(callee), k),
 		env:     map[ssa.Value]Value{},
 		callers: append(append([]*ssa.Function{}, f.callers...), f.fn)}
@@ -1016,6 +1030,8 @@ func (f *Frame) runDeferred(d deferEntry, st *State) {
 	// execute under guard: state after = ite(guard, after, before)
 	sub := st.clone()
 	sub.reach = mkAnd(st.reach, d.guard)
+	f.inDeferred = true
+	defer func() { f.inDeferred = false }()
 	c := d.call
 	if c.IsInvoke() {
 		f.invoke(d.instr, c, d.args, sub)
@@ -1159,13 +1175,35 @@ func isInvalid(t types.Type) bool {
 }
 
 func (f *Frame) recoverOp(ins ssa.Instruction, st *State) Value {
-	// outside the panic model: recover() returns nil on normal paths
+	// recover() is effective only when called directly by a deferred function while its
+	// parent frame unwinds a panic; everywhere else it returns nil
+	if f.parent != nil && f.parent.recoverCtx != nil && f.deferredCall {
+		rc := f.parent.recoverCtx
+		v := mkIte(rc.recovered, nilIface, rc.val)
+		val := f.u.freshDef("recv", v)
+		rc.recovered = mkOr(rc.recovered, st.reach)
+		return Value{T: val, Ty: types.NewInterfaceType(nil, nil)}
+	}
 	return Value{T: nilIface, Ty: types.NewInterfaceType(nil, nil)}
 }
 
 // siteHook evaluates `at PATTERN assert/ghost` clauses attached to this instruction.
 func (f *Frame) siteHook(kind string, ins ssa.Instruction, st *State, extra map[string]Value) {
-	if !f.top || f.fc == nil {
+	// Sites are named by the contract of the function under verification; call sites inside
+	// callees that are executed in place (inlined helpers) count as well, so that extracting
+	// a helper does not detach the contract.
+	root := f
+	for root.parent != nil {
+		root = root.parent
+	}
+	if root.fc == nil || !root.top {
+		return
+	}
+	if f != root {
+		if kind != "call" && kind != "after" {
+			return
+		}
+		root.siteFromInlined(f, kind, ins, st, extra)
 		return
 	}
 	for _, s := range f.fc.Sites {
@@ -1461,4 +1499,97 @@ func (f *Frame) callbackWrites(c *ssa.CallCommon) (map[string]bool, bool) {
 		}
 	}
 	return out, true
+}
+
+// mayPanicSite: the contract of the function being verified lists this call site
+// (`maypanic <callee>[#n]`) as one whose callee may panic.
+func (f *Frame) mayPanicSite(ins ssa.Instruction) bool {
+	root := f
+	for root.parent != nil {
+		root = root.parent
+	}
+	if root.fc == nil || len(root.fc.MayPanic) == 0 {
+		return false
+	}
+	for _, pat := range root.fc.MayPanic {
+		s := &SiteSpec{Pattern: "call " + pat}
+		if f.siteMatches(s, "call", ins) {
+			return true
+		}
+	}
+	return false
+}
+
+// siteFromInlined runs the root contract's call/after site actions for a call made by an
+// inlined callee. Names are resolved in the inlined frame first, then in the root frame.
+func (root *Frame) siteFromInlined(sub *Frame, kind string, ins ssa.Instruction, st *State, extra map[string]Value) {
+	for _, s := range root.fc.Sites {
+		fields := strings.Fields(s.Pattern)
+		if len(fields) == 0 || fields[0] != kind {
+			continue
+		}
+		// ordinals refer to the root function's own instructions: only un-numbered patterns
+		// extend to inlined callees
+		if strings.Contains(s.Pattern, "#") {
+			continue
+		}
+		if !sub.siteMatches(s, kind, ins) {
+			continue
+		}
+		if root.siteHit == nil {
+			root.siteHit = map[*SiteSpec]int{}
+		}
+		root.siteHit[s]++
+		subLookup := sub.lookupAt(sub.curBlock, sub.curIdx, st)
+		rootLookup := root.lookupAt(root.curBlock, root.curIdx, st)
+		lookup := func(name string) (CVal, bool) {
+			if v, ok := extra[name]; ok {
+				return root.cval(v, v.Ty), true
+			}
+			if v, ok := root.ghostLookup(name, st); ok {
+				return v, true
+			}
+			if v, ok := subLookup(name); ok {
+				return v, true
+			}
+			return rootLookup(name)
+		}
+		for _, act := range s.Order {
+			switch act.Kind {
+			case "assert":
+				a := s.Asserts[act.Idx]
+				ce := root.cenv(lookup, st.heap, root.entrySt.heap)
+				t, err := ce.evalBool(a.E)
+				if err != nil {
+					root.errorf("site %q assert %q (in inlined %s): %v", s.Pattern, a.Text, sub.fn.Name(), err)
+					continue
+				}
+				root.u.oblige("site", fmt.Sprintf("%s/at[%s]/%d.%d", root.u.name, s.Pattern, root.siteHit[s]-1, act.Idx), a.Text, root.u.eng.pos(ins.Pos()), st.reach, t)
+			case "ghost":
+				g := s.Ghost[act.Idx]
+				ce := root.cenv(lookup, st.heap, root.entrySt.heap)
+				v, err := ce.evalAny(g.Val.E)
+				if err != nil {
+					root.errorf("site %q ghost %s (in inlined %s): %v", s.Pattern, g.Name, sub.fn.Name(), err)
+					continue
+				}
+				gt, ok := root.ghostTy[g.Name]
+				if !ok {
+					root.errorf("unknown ghost variable %s", g.Name)
+					continue
+				}
+				v = ce.coerce(v, gt)
+				st.heap["Gh_"+g.Name] = root.u.freshDef("gh", v.T)
+			case "assume":
+				a := s.Assumes[act.Idx]
+				ce := root.cenv(lookup, st.heap, root.entrySt.heap)
+				if t, err := ce.evalBool(a.E); err == nil {
+					root.u.assume(st.reach, t)
+					root.u.usedAssumes = append(root.u.usedAssumes, "assumed at "+s.Pattern+": "+a.Text)
+				}
+			case "use":
+				root.applyLemma(s.Uses[act.Idx], "site "+s.Pattern, lookup, st)
+			}
+		}
+	}
 }
